@@ -4,6 +4,7 @@
 (* of the case's kind.  All lines are judged; the set of rejected line     *)
 (* numbers is printed at the end ("BAD" line) - TLC decides every case.    *)
 EXTENDS TextMatch, ReMatch, Cond, ArenaFile, Limits, FieldMut, Json, IOUtils, TLC
+SH == INSTANCE SigHandler WITH Threads <- {1}, Scans <- 1, CountInsideIf <- FALSE, pc <- 0, left <- 0, mutex <- 0, usecount <- 0, installed <- FALSE, log <- << >>
 AL == INSTANCE ApiLifecycle WITH comp <- 0, rules <- 0, scanner <- 0, armed <- 0, history <- 0
 HR == INSTANCE HashRange WITH KeyWithAlg <- TRUE, KeyIsArgs <- TRUE, cache <- 0, last <- 0, ncalls <- 0
 
@@ -26,6 +27,7 @@ CaseOK(c) ==
     [] c.kind = "recovered" -> RecoveredOK(c)
     [] c.kind = "timeout" -> TimeoutOK(c)
     [] c.kind = "modscan" -> ModScanOK(c)
+    [] c.kind = "hook" -> SH!HookTraceOK(c)
     [] OTHER -> FALSE
 
 \* disagreements that carry the signature of a recorded known finding (decided from the case, spec side)
